@@ -418,7 +418,14 @@ func runPair(sc *streamScenario, rec *recorder) {
 			clean = append(clean, b...)
 		}
 		if p.F != "drop" {
-			fault = append(fault, b...)
+			bb := b
+			if p.F == "dup" && b[3]&0x20 != 0 && b[4] >= 7 && b[5]&0x10 != 0 {
+				// a duplicate as a re-multiplexer emits it: same header, same payload, the PCR stamped again
+				bb = append([]byte(nil), b...)
+				bb[6] ^= 0x55
+				bb[10] ^= 0x01
+			}
+			fault = append(fault, bb...)
 		}
 		if p.F == "dup" || p.F == "drop" {
 			rec.ev(M{"ev": "fault", "f": p.F, "pid": p.PID, "u": p.U, "prevu": prevUnit[p.PID], "pusi": p.PUSI, "at": i})
@@ -451,6 +458,7 @@ func runPair(sc *streamScenario, rec *recorder) {
 	}
 	seen := map[int]int{}
 	unitOfCDG := map[string]int{}
+	dgOfCDG := map[string]string{} // the whole delivered value (first packet included) of every clean delivery
 	one := func(run string, stream []byte) {
 		dmx := newDemuxer(bytes.NewReader(stream), sc.Run)
 		drainData(dmx, len(stream)/188+len(bs.units)*4+10, func() int { return 0 }, func(e M) {
@@ -465,9 +473,14 @@ func runPair(sc *streamScenario, rec *recorder) {
 					}
 					seen[pid]++
 					unitOfCDG[key] = u
+					dgOfCDG[key], _ = e["dg"].(string)
 					e["u"] = u
 				} else {
 					e["u"] = unitOfCDG[key]
+					if want, ok := dgOfCDG[key]; ok {
+						got, _ := e["dg"].(string)
+						e["fpsame"] = got == want // the unit's first packet (header, adaptation field) is the clean run's too
+					}
 				}
 			}
 			rec.ev(e)
